@@ -25,7 +25,7 @@ func init() {
 		Level: "model_checking",
 		Rule: "Part A: explicit-state BFS over histories of the real time-series Counter under the virtual clock: operations Add(1), Add(5), clock advance {1 ms, 1.5 s, 3 s, 61 s, 121 s, 2 h 1 s, 9 d}, forced roll-up (operation count brought to the roll-up interval), depth <=6 (quick) / <=8 (thorough); in every state: Load = sum of increments, history sorted by time and summing to the total, every window on a time grid reports <= total, the full window reports the total, dump->load returns an equal counter. " +
 			"Part C: every history of <=3 operations, DumpMetricsNow to a file, restart with empty counters, <=2 operations, LoadMetricsFromDump, one more operation: no window exceeds the total, history ordered, the loaded total lies between max(dumped, counted since restart) and their sum. " +
-			"Part B: real server with users {1 MB/1 day quota, no quota, large quota}, traffic just below / at / above the allowance, then new sessions per user, sequentially and concurrently; only the offender is refused, the server application never reads a byte of a refused session, per-user counters equal the bytes the applications exchanged. distinct = distinct canonical counter states / quota scenarios",
+			"Part B: real server with users {1 MB/1 day quota, no quota, large quota, two quota entries of 2 MB (1 day and 30 days)}, traffic just below / at / above the allowance, then new sessions per user, sequentially and concurrently; only the offender is refused, the server application never reads a byte of a refused session, per-user counters equal the bytes the applications exchanged. distinct = distinct canonical counter states / quota scenarios",
 		Assumptions: []string{
 			"canonical counter state = (absolute virtual now, history entries, total); the roll-up truncates absolute times, so states are not time-translation invariant and now is part of the key",
 			"quota granularity is whole megabytes, as in the implementation (total/1048576 > megabytes)",
@@ -33,7 +33,7 @@ func init() {
 		Units: func(tier string) []runner.Unit {
 			return append(append(counterUnits(tier), reloadUnits(tier)...), quotaUnits(tier)...)
 		},
-		QuickBudget:    75,
+		QuickBudget:    240,
 		ThoroughBudget: 600,
 	})
 }
